@@ -331,6 +331,12 @@ class LFS:
         stdout = self.run_lfs("hsm_action", path)["output"]
         if stdout is None:
             return None  # Command returned error
+
+        # Strip the path from the output, as hsm_state() does: the path itself
+        # may contain the word we're looking for
+        if stdout.startswith(path + ":"):
+            stdout = stdout[len(path) :]
+
         return "RESTORE" in stdout
 
     def hsm_state(self, path: os.PathLike | str) -> HSMState:
